@@ -766,6 +766,43 @@ func genFresh(r *hc.Rand, threads, rounds, senders, sends int) Case {
 	return c
 }
 
+// ONE pipeline id under fire: two pipelines of one type share the nodes 2 and 3; every goroutine, in lock step (a barrier per round),
+// registers pipeline 1 again / removes it / removes it with its nodes.  Whatever the interleaving, the registry afterwards is the
+// one some sequential order of the calls leaves: pipeline 1 present or not, and every node in use exactly if a registered pipeline
+// lists it.  Short histories, many repetitions: the windows between two steps of one call are a few instructions wide.
+func genOnePipe(r *hc.Rand, threads, rounds int) Case {
+	c := Case{Gen: "onepipe", Senders: 1, Sends: 2, Seed: r.U64()}
+	for id := 1; id <= 4; id++ {
+		c.Setup = append(c.Setup, Op{K: "regnode", ID: id, Obj: id, Ty: nodeTy[id]})
+	}
+	c.Setup = append(c.Setup, Op{K: "regnode", ID: 101, Obj: 101, Ty: 1}, Op{K: "regnode", ID: 102, Obj: 102, Ty: 1},
+		Op{K: "regpipe", Pid: 1, Ety: 1, IDs: []int{101, 2, 3}}, Op{K: "regpipe", Pid: 2, Ety: 1, IDs: []int{102, 2, 3}})
+	defs := [][]int{{101, 2, 3}, {101, 2, 3}, {101, 1, 2, 3}, {101, 2, 4}}
+	c.Threads = make([][]Op, threads)
+	for k := 0; k < rounds; k++ {
+		for ti := 0; ti < threads; ti++ {
+			x := r.Intn(100)
+			if ti < 2 { // one goroutine registers while another removes, in turn
+				x = 0
+				if (ti+k)%2 == 1 {
+					x = 60
+				}
+			}
+			op := Op{K: "regpipe", Pid: 1, Ety: 1, IDs: defs[r.Intn(len(defs))], Pol: []int{0, 0, 1}[r.Intn(3)]}
+			switch {
+			case x < 50:
+			case x < 92:
+				op = Op{K: "rmpipe", Pid: 1, Ety: 1}
+			default:
+				op = Op{K: "rpan", Pid: 1, Ety: 1}
+			}
+			op.Bar = k + 1
+			c.Threads[ti] = append(c.Threads[ti], op)
+		}
+	}
+	return c
+}
+
 // rebinding and identical re-registration: a pipeline is registered, one of its node ids is registered again with another
 // object (or removed and registered again after the pipeline was removed), then the pipeline is registered again EXACTLY as
 // before (same ids, same or another policy).  The sequential specification links the objects registered at the time of the
@@ -872,6 +909,7 @@ func main() {
 	mode := flag.String("mode", "cases", "cases: print case files; race: long histories with readers, no case files")
 	wd := flag.Duration("watchdog", 8*time.Second, "per-history watchdog")
 	ncases := flag.Int("cases", 150, "number of concurrent histories")
+	nonepipe := flag.Int("onepipe", 0, "number of histories in which every goroutine works on ONE pipeline id")
 	nrebind := flag.Int("rebind", 0, "number of rebind / identical re-registration histories")
 	nfresh := flag.Int("fresh", 0, "number of fresh-type race histories (first calls for unused event types behind a barrier)")
 	maxThreads := flag.Int("threads", 8, "maximal number of registry goroutines (2..)")
@@ -997,6 +1035,9 @@ func main() {
 		c := genRebind(r.Fork(), 1+i%3, 1, 4)
 		c.Lookalike = i%2 == 1
 		e.emit(c)
+	}
+	for i := 0; i < *nonepipe && len(hangs) < 2; i++ {
+		e.emit(genOnePipe(r.Fork(), 3+i%3, 4+i%2))
 	}
 	for i := 0; i < *nfresh && len(hangs) < 2; i++ {
 		e.emit(genFresh(r.Fork(), 2+i%3, 3, 1, 2))
